@@ -195,6 +195,10 @@ var allocLimit, allocBase uint64
 // reported and counts as a violation only if the native run does not finish within its time limit.
 func WorkLimit(n int) {}
 
+// FatalIsViolation(true): from here on a log.Fatal in the library is a finding (natively: the
+// process exits), for harnesses that script no failure the library could react to.
+func FatalIsViolation(on bool) {}
+
 func MonitorShared(on bool) {}
 func Ownership(on bool)     {}
 func Symbolic() bool        { return false }
